@@ -3,6 +3,7 @@ Reading order with a numeric `boxes_flow` on pages with two text boxes (C09, rou
 whose two members are the two boxes, in key order.
 -/
 import PdfVerif.Lemmas.LayoutAnalyze
+import PdfVerif.Lemmas.LayoutSpec
 
 set_option linter.unusedSimpArgs false
 
@@ -71,5 +72,132 @@ theorem groupOK_lrtb {bf : Rat} {g : Node} (hok : GroupOK bf g) :
     have hr := ihr (fun b hb => h b (by simp [Node.leaves, hb]))
     have : t = false := by rw [ht, hl.1, hr.1]; rfl
     exact ⟨by simpa [Node.isVert] using this, this, hl.2, hr.2⟩
+
+end PdfVerif.Layout
+
+/-! ## a single column of any number of boxes (round 6c) -/
+
+namespace PdfVerif.Layout
+open PdfVerif PdfVerif.Gen.Layout
+
+/-- Hull of hulls. -/
+theorem isUnion_two {bb a b : BB} {A B : List BB} (h : IsUnion bb [a, b]) (ha : IsUnion a A) (hb : IsUnion b B) :
+    IsUnion bb (A ++ B) := by
+  have hca := h.contains a (by simp)
+  have hcb := h.contains b (by simp)
+  refine ⟨?_, ?_, ?_, ?_, ?_⟩
+  · intro c hc
+    rcases List.mem_append.mp hc with hc | hc
+    · have := ha.contains c hc
+      exact ⟨le_trans hca.1 this.1, le_trans hca.2.1 this.2.1, le_trans this.2.2.1 hca.2.2.1, le_trans this.2.2.2 hca.2.2.2⟩
+    · have := hb.contains c hc
+      exact ⟨le_trans hcb.1 this.1, le_trans hcb.2.1 this.2.1, le_trans this.2.2.1 hcb.2.2.1, le_trans this.2.2.2 hcb.2.2.2⟩
+  · obtain ⟨m, hm, e⟩ := h.left
+    simp only [List.mem_cons, List.not_mem_nil, or_false] at hm
+    rcases hm with rfl | rfl
+    · obtain ⟨c, hc, e'⟩ := ha.left; exact ⟨c, List.mem_append_left _ hc, e.trans e'⟩
+    · obtain ⟨c, hc, e'⟩ := hb.left; exact ⟨c, List.mem_append_right _ hc, e.trans e'⟩
+  · obtain ⟨m, hm, e⟩ := h.bottom
+    simp only [List.mem_cons, List.not_mem_nil, or_false] at hm
+    rcases hm with rfl | rfl
+    · obtain ⟨c, hc, e'⟩ := ha.bottom; exact ⟨c, List.mem_append_left _ hc, e.trans e'⟩
+    · obtain ⟨c, hc, e'⟩ := hb.bottom; exact ⟨c, List.mem_append_right _ hc, e.trans e'⟩
+  · obtain ⟨m, hm, e⟩ := h.right
+    simp only [List.mem_cons, List.not_mem_nil, or_false] at hm
+    rcases hm with rfl | rfl
+    · obtain ⟨c, hc, e'⟩ := ha.right; exact ⟨c, List.mem_append_left _ hc, e.trans e'⟩
+    · obtain ⟨c, hc, e'⟩ := hb.right; exact ⟨c, List.mem_append_right _ hc, e.trans e'⟩
+  · obtain ⟨m, hm, e⟩ := h.top
+    simp only [List.mem_cons, List.not_mem_nil, or_false] at hm
+    rcases hm with rfl | rfl
+    · obtain ⟨c, hc, e'⟩ := ha.top; exact ⟨c, List.mem_append_left _ hc, e.trans e'⟩
+    · obtain ⟨c, hc, e'⟩ := hb.top; exact ⟨c, List.mem_append_right _ hc, e.trans e'⟩
+
+/-- The box of every node of a well-formed hierarchy is the tight hull of the boxes of its leaves. -/
+theorem groupOK_hull {bf : Rat} {g : Node} (hok : GroupOK bf g) : IsUnion g.bb (g.leaves.map (·.bb)) := by
+  induction hok with
+  | leaf b => exact isUnion_singleton _
+  | grp t bb l r _ _ hu _ _ ihl ihr =>
+    simp only [Node.bb, Node.leaves, List.map_append]
+    exact isUnion_two hu ihl ihr
+
+/-- All leaves of `l` lie above all leaves of `r` (they may touch). -/
+def Node.above (l r : Node) : Prop := ∀ a ∈ l.leaves, ∀ b ∈ r.leaves, b.bb.y1 ≤ a.bb.y0
+
+/-- Every group of the hierarchy joins two vertically separated runs of boxes (what `group_textboxes` produces for a
+column: only vertically adjacent runs are merged). -/
+def Node.Separated : Node → Prop
+  | .leaf _ => True
+  | .grp _ _ l r => (l.above r ∨ r.above l) ∧ l.Separated ∧ r.Separated
+
+/-- In a well-formed hierarchy over horizontal boxes with a common left edge and positive height whose groups
+join separated runs, the leaves in depth-first order run from top to bottom (`boxes_flow > -1`). -/
+theorem column_top_to_bottom {bf : Rat} (hbf : -1 < bf) (c : Rat) {g : Node} (hok : GroupOK bf g) :
+    (∀ a ∈ g.leaves, a.vertical = false ∧ a.bb.x0 = c ∧ a.bb.y0 < a.bb.y1) → g.Separated →
+    g.leaves.Pairwise (fun a b => b.bb.y1 ≤ a.bb.y0) := by
+  induction hok with
+  | leaf b => intro _ _; simp [Node.leaves]
+  | grp t bb l r hl hr _ ht hk ihl ihr =>
+    intro hcol hsep
+    have hcl : ∀ a ∈ l.leaves, a.vertical = false ∧ a.bb.x0 = c ∧ a.bb.y0 < a.bb.y1 :=
+      fun a ha => hcol a (by simp [Node.leaves, ha])
+    have hcr : ∀ a ∈ r.leaves, a.vertical = false ∧ a.bb.x0 = c ∧ a.bb.y0 < a.bb.y1 :=
+      fun a ha => hcol a (by simp [Node.leaves, ha])
+    obtain ⟨hab, hsl, hsr⟩ := hsep
+    simp only [Node.leaves]
+    refine List.pairwise_append.mpr ⟨ihl hcl hsl, ihr hcr hsr, ?_⟩
+    rcases hab with hab | hab
+    · exact hab
+    · exfalso
+      have hvl := (groupOK_lrtb hl (fun b hb => (hcl b hb).1)).1
+      have hvr := (groupOK_lrtb hr (fun b hb => (hcr b hb).1)).1
+      have htf : t = false := by rw [ht, hvl, hvr]; rfl
+      subst htf
+      simp only [groupKey, Bool.false_eq_true, if_false] at hk
+      have hul := groupOK_hull hl
+      have hur := groupOK_hull hr
+      -- corners of the two hulls
+      obtain ⟨xl, hxl, exl⟩ := hul.left
+      obtain ⟨xr, hxr, exr⟩ := hur.left
+      obtain ⟨tl, htl, etl⟩ := hul.top
+      obtain ⟨br, hbr, ebr⟩ := hur.bottom
+      simp only [List.mem_map] at hxl hxr htl hbr
+      obtain ⟨xl', hxl', rfl⟩ := hxl
+      obtain ⟨xr', hxr', rfl⟩ := hxr
+      obtain ⟨tl', htl', rfl⟩ := htl
+      obtain ⟨br', hbr', rfl⟩ := hbr
+      have hx : r.bb.x0 = l.bb.x0 := by rw [exl, exr, (hcl xl' hxl').2.1, (hcr xr' hxr').2.1]
+      have h1 : l.bb.y1 ≤ r.bb.y0 := by rw [etl, ebr]; exact hab br' hbr' tl' htl'
+      have h2 : l.bb.y0 < l.bb.y1 := by
+        have hc := hul.contains tl'.bb (List.mem_map.mpr ⟨tl', htl', rfl⟩)
+        have := (hcl tl' htl').2.2
+        rw [etl]; exact lt_of_le_of_lt hc.2.1 this
+      have h3 : r.bb.y0 < r.bb.y1 := by
+        have hc := hur.contains br'.bb (List.mem_map.mpr ⟨br', hbr', rfl⟩)
+        have := (hcr br' hbr').2.2
+        rw [ebr]; exact lt_of_lt_of_le this hc.2.2.2
+      have := key_lrtb_column bf hbf r.bb l.bb hx (by linarith)
+      exact absurd hk (not_le.mpr this)
+
+end PdfVerif.Layout
+
+namespace PdfVerif.Layout
+open PdfVerif PdfVerif.Gen.Layout
+
+/-- Executable form of `Node.above` / `Node.Separated`. -/
+def Node.aboveB (l r : Node) : Bool := l.leaves.all fun a => r.leaves.all fun b => decide (b.bb.y1 ≤ a.bb.y0)
+
+def Node.separatedB : Node → Bool
+  | .leaf _ => true
+  | .grp _ _ l r => (l.aboveB r || r.aboveB l) && l.separatedB && r.separatedB
+
+theorem aboveB_iff (l r : Node) : l.aboveB r = true ↔ l.above r := by
+  simp only [Node.aboveB, Node.above, List.all_eq_true, decide_eq_true_eq]
+
+theorem separatedB_iff : ∀ n : Node, n.separatedB = true ↔ n.Separated
+  | .leaf _ => by simp [Node.separatedB, Node.Separated]
+  | .grp _ _ l r => by
+    simp only [Node.separatedB, Node.Separated, Bool.and_eq_true, Bool.or_eq_true, aboveB_iff,
+      separatedB_iff l, separatedB_iff r, and_assoc]
 
 end PdfVerif.Layout
